@@ -169,6 +169,30 @@ func goroutineGone(id uint64) bool {
 	}
 }
 
+// goroutineState returns what the runtime prints between the brackets of the goroutine's
+// header line ("select", "chan receive", "running", ...); "" when the goroutine is gone.
+func goroutineState(id uint64) string {
+	size := 1 << 18
+	for {
+		buf := make([]byte, size)
+		n := runtime.Stack(buf, true)
+		if n < size {
+			hdr := []byte(fmt.Sprintf("goroutine %d [", id))
+			i := bytes.Index(buf[:n], hdr)
+			if i < 0 {
+				return ""
+			}
+			rest := buf[i+len(hdr) : n]
+			j := bytes.IndexByte(rest, ']')
+			if j < 0 {
+				return "?"
+			}
+			return string(rest[:j])
+		}
+		size *= 4
+	}
+}
+
 // NewRun creates publishers, a real Subscriber with an announce receiver (nil libp2p
 // host: announcements arrive through Subscriber.Announce) and installs the scheduler as
 // the yield callback and as the block hook.
@@ -285,8 +309,29 @@ func (r *Run) raw(a *arrival, tid int) {
 
 // the watcher went back to receiver.Next: if an announcement is waiting, Next returns it
 func (r *Run) watcherIdle() {
-	if r.annOut == nil || r.Aborted {
+	if r.Aborted {
 		return
+	}
+	if r.annOut == nil {
+		// nothing queued: the watcher blocks in receiver.Next (a select).  What it did on
+		// the way there (releaseHandler on the replaced-announcement path) has no yield
+		// point after it, so wait until the goroutine is seen blocked.
+		g, ok := r.goOf[0]
+		if !ok {
+			return
+		}
+		deadline := time.Now().Add(Watchdog)
+		for {
+			st := goroutineState(g)
+			if strings.HasPrefix(st, "select") || strings.HasPrefix(st, "chan receive") {
+				return
+			}
+			if time.Now().After(deadline) {
+				r.abort("watchdog", "the watcher did not get back to receiver.Next (goroutine state %q)", st)
+				return
+			}
+			time.Sleep(20 * time.Microsecond)
+		}
 	}
 	d := *r.annOut
 	a := r.earlyW
@@ -329,6 +374,40 @@ func (r *Run) waitExit(t int) {
 		time.Sleep(20 * time.Microsecond)
 	}
 	r.Raw = append(r.Raw, RawEvent{Goid: g, Tid: t, Point: YExit, Pub: r.M.Threads[t].Pub})
+}
+
+// the goroutine of thread t was let go and the model says its next operation blocks: what
+// it does on the way there (e.g. GetHead) must be over before the next decision, so wait
+// until the runtime shows it blocked on the mutex / the semaphore channel
+func (r *Run) waitBlocked(t int) {
+	g, ok := r.goOf[t]
+	if !ok {
+		return
+	}
+	deadline := time.Now().Add(Watchdog)
+	for {
+		st := goroutineState(g)
+		onMutex := strings.HasPrefix(st, "sync.Mutex.Lock") || strings.HasPrefix(st, "semacquire")
+		onSem := strings.HasPrefix(st, "select") || strings.HasPrefix(st, "chan send")
+		if (r.M.Threads[t].PC == GAcq && onSem) || (r.M.Threads[t].PC != GAcq && onMutex) {
+			return
+		}
+		// it did not block: it will show up at a yield point and be reported there
+		select {
+		case a := <-r.arrivals:
+			if a.goid == g {
+				r.early = append(r.early, a)
+				return
+			}
+			r.early = append(r.early, a)
+		default:
+		}
+		if st == "" || time.Now().After(deadline) {
+			r.abort("watchdog", "thread %d should be blocked (pc %v) but its goroutine is in state %q", t, r.M.Threads[t].PC, st)
+			return
+		}
+		time.Sleep(20 * time.Microsecond)
+	}
 }
 
 // advance runs thread t through model steps until it is seen at its next yield point,
@@ -385,6 +464,7 @@ func (r *Run) advance(t int, pre *arrival, release func()) {
 			}
 			r.blocked[t] = true
 			r.EverBlocked++
+			r.waitBlocked(t)
 			return
 		case y.Point == YAsyncStart:
 			a := r.waitFor(fmt.Sprintf("the goroutine spawned for publisher %d reaching async:start", th.Pub),
